@@ -1,5 +1,6 @@
 import BarterModel.Lemmas.EngineScope
 import BarterModel.Lemmas.Review1Engine
+import BarterModel.Lemmas.KernelsAgree.FiltersActionsSM
 /-!
 # C19 — Cancel-orders and close-positions commands act on exactly the filtered scope
 
@@ -549,5 +550,31 @@ example :
     let e1 := (process demo (.command (.cancelOrders .none)) [] [] (fun _ => false)).1
     let e2 := (process e1 (.update (.order 0 (.cancelResp 2 false))) [] [] (fun _ => false)).1
     cancelRequests e2 .none = [⟨⟨0, 0, 2⟩, some 7⟩] := by decide +kernel
+
+/-- **Tie to the source by translation: the instrument filter and the request generators.** `InstrumentFilter` with its three
+constructors (barter/src/engine/state/instrument/filter.rs), `InstrumentStates::{filtered, instruments, orders, positions,
+tear_sheets, instrument_datas}`, `InstrumentState`, `InstrumentStates` (instrument/mod.rs), `Orders::orders`
+(barter/src/engine/state/order/mod.rs), `Order::to_request_cancel` (barter-execution/src/order/mod.rs),
+`close_open_positions_with_market_orders` and `build_ioc_market_order_to_close_position` (barter/src/strategy/
+close_positions.rs) are regenerated from the current source by `tools/rust2lean_sm.py` on every run
+(`Generated/Machines4.lean`, group `filters_actions`): the `IndexMap` of instrument states is iterated in insertion order,
+`itertools::Either` is transparent, `OneOrMany::contains` is fixed vocabulary, the `FnvHashMap` of tracked orders yields a
+`Rust.Bag` that stays one under `filter_map` (hash order is never observed). For ALL filters, states, orders, positions,
+prices and generators: the predicate `filtered` applies IS the model's `Filter.matches` at the index `state.key`
+(`filter_none` .. `filter_underlyings` are about it); `filtered` = `instruments` keeps exactly the states the model's
+`zipIdx.filter` keeps, in order, when the `i`-th state has key `i` (`KeysArePositions`); per order `to_request_cancel` IS the
+model's `toRequestCancel` (the function `cancel_scope`, `cancel_skips_cancel_in_flight` are about) at the order's own key; the
+cancel requests of one instrument are a PERMUTATION of the model's `sortByCid`-ordered ones (hash order is not modelled)
+when its table is `OrderKeysConsistent`; `build_ioc_market_order_to_close_position` IS the model's closing request
+(opposite side, price, `quantity_abs`; `Market` / `ImmediateOrCancel`), and `close_open_positions_with_market_orders`
+returns no cancel requests and exactly the model's `closeRequests` (what `close_scope`, `close_one_per_instrument` are
+about), in order, under `KeysArePositions`, `PositionKeysConsistent` and `gen_cid = closeCid`. The three consistency
+hypotheses are invariants of reachable engine states that the model bakes into its representation. The statement is that of
+`KernelsAgree.FiltersActionsSM.filters_actions_agree` (Lemmas/KernelsAgree/FiltersActionsSM.lean). NOT translated:
+`cancel_orders` itself (it hands the hash-ordered requests to the ordered consumer `send_requests`: rejected by design),
+`close_positions`, `Engine::action`. -/
+theorem filters_and_request_generators_agree_with_source :
+    type_of% BarterModel.KernelsAgree.FiltersActionsSM.filters_actions_agree :=
+  BarterModel.KernelsAgree.FiltersActionsSM.filters_actions_agree
 
 end BarterModel.Props.C19
